@@ -35,6 +35,8 @@ def spec_of(case):
         pmin, dp, ntv = INSIDE[case["pgrid"]] if isinstance(case["pgrid"], str) else case["pgrid"]
         q.update(P_MIN=pmin, DELTA_P=dp, DELTA_P_SAMPLE=dp * case.get("sample_stride", 1), NTV=ntv)
     s["qha"] = q
+    if case.get("output") is not None:
+        s["output"] = case["output"]          # the output section of the settings file (which tables a later write_output would write)
     return s
 
 
@@ -251,6 +253,10 @@ def overshoot_cases():
         # sparse output sampling (DELTA_P_SAMPLE >> DELTA_P): the whole requested grid counts, not only the sampled pressures
         for pg, stride in (([0, 20.0, 41], 50), ([0, 20.0, 41], 7), ([0, 5.0, 201], 300)):
             out.append({"data": data, "tgrid": "t0", "pgrid": pg, "sample_stride": stride, "expect": "error"})
+        # the refusal must not depend on which tables the settings file asks to be written
+        for outsec in ({"pressure_base": [], "volume_base": ["p"]}, {"pressure_base": []}, {"volume_base": ["cij", "p"]},
+                       {"pressure_base": ["v"], "volume_base": []}):
+            out.append({"data": data, "tgrid": "t0", "pgrid": [0, 20.0, 41], "output": outsec, "expect": "error"})
         for tg in ("hot", "t1"):
             out.append({"data": data, "tgrid": tg, "pgrid": "between", "expect": "error"})
         for tg in ("t0", "t2"):
@@ -261,8 +267,8 @@ def overshoot_cases():
 def explore(ctx):
     ctx.rule = ("3 synthetic data sets x 3 temperature grids x 4 inside pressure grids (+ square (T,V) grids with NT+4 == NTV) (max requested <= reach/2), + static_only runs (coinciding isotherms of P), + grids whose top / bottom lies in the last / first volume interval of the limiting isotherm: every modulus "
                 "(adiabatic, isothermal, attribute spellings), compliances, 6 averages, 2 velocities and V at every (T,P) node vs an "
-                "independent cubic spline along the isotherm; pressure round trip; exact conversion of cubic-in-P fields; plus 60 "
-                "overshooting grids (max requested >= 2x reach) and 6 grids whose maximum lies between the reach of the coldest and the hottest isotherm, all of which must be rejected; complete in both tiers; non-trivial = >10 quantities checked")
+                "independent cubic spline along the isotherm; pressure round trip; exact conversion of cubic-in-P fields; plus 72 "
+                "overshooting grids (max requested >= 2x reach; also with output sections that list no pressure-base table) and 6 grids whose maximum lies between the reach of the coldest and the hottest isotherm, all of which must be rejected; complete in both tiers; non-trivial = >10 quantities checked")
     ctx.assumptions = ["qha's P(T,V) and V(T,P) are trusted as a library", "tolerance: 25% of the local cell variation (DESIGN §5)"]
     inside = [{"data": dname, "tgrid": tg, "pgrid": pg} for dname in DATASETS for tg in TGRIDS if tg not in ("hot", "sq41", "sq81") for pg in INSIDE]
     inside += [{"data": dname, "tgrid": tg, "pgrid": pg} for dname in ("A", "C") for tg, pg in (("sq41", "p0"), ("sq81", "p1"))]
